@@ -444,7 +444,55 @@ func propC15A(r *Run) {
 		if d := diffNoTmp(pre, w.fs.Snapshot(cfg.BaseDir)); len(d) > 0 {
 			r.Fail("read-only/store-changed", "after %d read-only / refused requests the store differs: %v", n, d)
 		}
-		r.Steps += n
+		// management calls through the running agent, on a directory that may have picked up an entry
+		// that does not belong there (a synchronisation tool's temporary file, an editor backup): a
+		// call that reports failure leaves the store as it was, one that succeeds touches its target only
+		stray := ""
+		if r.Choose("stray-entry-appears", 2) == 1 {
+			stray = []string{".alice.user.Xk3F9a", "notes.txt", "root.admin~", "#bob.user#"}[r.Choose("stray-kind", 4)]
+			w.fs.Put(cfg.BaseDir+"/"+stray, []byte("x\n"), 0o600)
+			r.Count("probe:stray-entry-in-running-store")
+		}
+		nm := 2 + r.Choose("nmgmt", 6)
+		for i := 0; i < nm; i++ {
+			u := append(users, "nobody")[r.Choose("mgmt-user", len(users)+1)]
+			var c *Call
+			switch r.Choose("mgmt-op", 6) {
+			case 0:
+				c = &Call{Kind: "add", Via: "agent", Agent: a.idx, User: u, PW: "added-" + u, Admin: r.Choose("mgmt-admin", 2) == 1}
+			case 1:
+				c = &Call{Kind: "update", Via: "agent", Agent: a.idx, User: u, PW: fmt.Sprintf("changed-%d-%s", i, u)}
+			case 2, 3, 4:
+				c = &Call{Kind: "set-admin", Via: "agent", Agent: a.idx, User: u, Admin: r.Choose("mgmt-admin", 2) == 1}
+				if u == "root" {
+					c.Admin = true
+				}
+			case 5:
+				c = &Call{Kind: "remove", Via: "agent", Agent: a.idx, User: u}
+				if u == "root" {
+					c.User = "nobody"
+				}
+			}
+			before := w.fs.Snapshot(cfg.BaseDir)
+			w.addClient([]*Call{c})
+			if wedge := w.settle(nil); wedge != "" {
+				r.FailOther("C10", wedgeSignature(wedge), "%s", wedge)
+				return
+			}
+			d := diffNoTmp(before, w.fs.Snapshot(cfg.BaseDir))
+			r.Logf("mgmt %s -> ok=%v err=%q changes=%v (stray %q)", c, c.OK, c.Err, d, stray)
+			r.Nontrivial(fmt.Sprintf("mgmt|%s|%s|%v|%s", c.Kind, c.User, c.OK, stray))
+			if !c.OK && len(d) > 0 {
+				r.Fail("failure/"+c.Kind+"/changed-store", "%s reported failure (%s) but the store changed: %v", c, c.Err, d)
+			}
+			for _, dd := range d {
+				f := strings.SplitN(dd, " ", 2)
+				if len(f) == 2 && f[1] != cfg.BaseDir+"/"+c.User+".user" && f[1] != cfg.BaseDir+"/"+c.User+".admin" {
+					r.Fail("target/"+c.Kind+"/touched-other-entry", "%s changed %s", c, dd)
+				}
+			}
+		}
+		r.Steps += n + nm
 		r.Sample(map[string]any{"requests": trace[:min(len(trace), 8)]})
 	})
 }
